@@ -23,6 +23,8 @@ import (
 	"sort"
 	"strconv"
 	"strings"
+	"sync"
+	"sync/atomic"
 
 	"github.com/ctessum/geom"
 	"github.com/ctessum/geom/op"
@@ -199,7 +201,7 @@ func starRing(r *vproto.Rng, cx, cy, rmin, rmax, n int) ring {
 }
 
 func rect(x0, y0, x1, y1 int) ring { return ring{pt(x0, y0), pt(x1, y0), pt(x1, y1), pt(x0, y1)} }
-func diamond(cx, cy, h int) ring  { return ring{pt(cx-h, cy), pt(cx, cy-h), pt(cx+h, cy), pt(cx, cy+h)} }
+func diamond(cx, cy, h int) ring   { return ring{pt(cx-h, cy), pt(cx, cy-h), pt(cx+h, cy), pt(cx, cy+h)} }
 func tri(r *vproto.Rng, x0, y0, x1, y1 int) ring {
 	for try := 0; try < 20; try++ {
 		t := ring{pt(r.Range(x0, x1), r.Range(y0, y1)), pt(r.Range(x0, x1), r.Range(y0, y1)), pt(r.Range(x0, x1), r.Range(y0, y1))}
@@ -486,10 +488,10 @@ func gen(seed uint64, tier string) {
 		{respell(big, spell{closed: true}), respell(hole, spell{closed: true, rev: true, rot: 2})},
 		{}, {{}}, {sq, {}}, {{pt(1, 1)}}, {{pt(1, 1), pt(2, 2)}}, {{pt(0, 0), pt(1, 1), pt(2, 2)}},
 		{big, big}, {big, respell(big, spell{rev: true})}, // identical rings (not valid)
-		{big, ring{pt(0, 0), pt(5, 0), pt(5, 5)}},                          // hole touching the shell (not valid)
-		{ring{pt(0, 0), pt(4, 4), pt(4, 0), pt(0, 4)}},                     // bow-tie (not valid)
-		{hole, big},                                                        // hole listed first (not valid as written)
-		{big, hole, ring{pt(5, 5), pt(5, 6), pt(6, 6)}[0:3]},               // nested hole in hole (not valid)
+		{big, ring{pt(0, 0), pt(5, 0), pt(5, 5)}},      // hole touching the shell (not valid)
+		{ring{pt(0, 0), pt(4, 4), pt(4, 0), pt(0, 4)}}, // bow-tie (not valid)
+		{hole, big}, // hole listed first (not valid as written)
+		{big, hole, ring{pt(5, 5), pt(5, 6), pt(6, 6)}[0:3]},                                                // nested hole in hole (not valid)
 		{ring{pt(0, 0), pt(20, 0), pt(20, 20), pt(10, 6), pt(0, 20)}, ring{pt(4, 2), pt(16, 2), pt(16, 4)}}, // notch
 		// every vertex of the shell is touched by a hole (no vertex of the shell decides): area() falls through to its "matches" logic
 		{ring{pt(0, 0), pt(12, 0), pt(0, 12)}, ring{pt(0, 0), pt(3, 1), pt(1, 3)}, ring{pt(12, 0), pt(8, 1), pt(9, 2)}, ring{pt(0, 12), pt(1, 8), pt(2, 9)}},
@@ -616,13 +618,13 @@ func gen(seed uint64, tier string) {
 		b = r.Range(1, a-1)
 		k := r.Range(1, 4)
 		fam := []ring{
-			{pt(0, 0), pt(a, 0), pt(a, h), pt(b, h)},                          // right trapezoid
-			{pt(0, 0), pt(a, 0), pt(a, h), pt(a-b, h+k)},                      // one square corner
-			{pt(0, 0), pt(a, 0), pt(0, h)},                                    // right triangle
-			{pt(0, 0), pt(a, 0), pt(a, h), pt(0, h)},                          // rectangle
+			{pt(0, 0), pt(a, 0), pt(a, h), pt(b, h)},                             // right trapezoid
+			{pt(0, 0), pt(a, 0), pt(a, h), pt(a-b, h+k)},                         // one square corner
+			{pt(0, 0), pt(a, 0), pt(0, h)},                                       // right triangle
+			{pt(0, 0), pt(a, 0), pt(a, h), pt(0, h)},                             // rectangle
 			{pt(0, 0), pt(a+k, 0), pt(a+k, h), pt(a, h), pt(a, h+k), pt(0, h+k)}, // L
-			{pt(0, k), pt(-b, 0), pt(0, -h-k), pt(b, 0)},                      // kite
-			{pt(0, 0), pt(a, 0), pt(a+b, h), pt(a, h+k), pt(0, h+k)},          // house (two square corners)
+			{pt(0, k), pt(-b, 0), pt(0, -h-k), pt(b, 0)},                         // kite
+			{pt(0, 0), pt(a, 0), pt(a+b, h), pt(a, h+k), pt(0, h+k)},             // house (two square corners)
 		}
 		for try := 0; try < 20 && len(fam) < 9; try++ { // random simple polygons
 			n := r.Range(3, 6)
@@ -747,6 +749,33 @@ func gen(seed uint64, tier string) {
 		q, ss := randSpells(scaleRings(base, secondScale), true, false)
 		emitT(q, ss)
 		// (no float images: an affine image in floating point does not keep a vertex exactly on an edge)
+	}
+
+	// a shell touched in every vertex AND in the middle of two of its three edges: only the middle of the
+	// third edge decides; under every start vertex / direction / closure that edge is the first, the
+	// second or the closing one (unclosed spelling: the wrap-around edge)
+	{
+		T := 2 * r.Range(3, 9) // leg = 4T, multiples keep every middle on the grid
+		ox, oy := r.Range(-20, 20), r.Range(-20, 20)
+		P := func(x, y int) geom.Point { return pt(ox+x, oy+y) }
+		L := 4 * T
+		base := []ring{
+			{P(0, 0), P(L, 0), P(0, L)},
+			{P(0, 0), P(3, 1), P(1, 3)}, {P(L, 0), P(L-4, 1), P(L-3, 2)}, {P(0, L), P(1, L-4), P(2, L-3)},
+			{P(L/2, 0), P(L/2-1, 2), P(L/2+1, 2)}, {P(L/2, L/2), P(L/2-2, L/2-1), P(L/2-1, L/2-2)},
+		}
+		for rot := 0; rot < 3; rot++ {
+			for c := 0; c < 4; c++ {
+				q := make([]ring, len(base))
+				q[0] = respell(base[0], spell{rev: c&1 == 1, rot: rot, closed: c&2 == 2})
+				for j := 1; j < len(base); j++ {
+					q[j] = respell(base[j], spell{rev: r.Bool(), rot: r.Intn(3), closed: c&2 == 2 || r.Bool()})
+				}
+				g := G(toPoly(q))
+				fmt.Fprintf(out, "area g%s %s\ncent g%s %s\nmarea g%s %s\nmcent g%s %s\n", lay(r), g, lay(r), g,
+					lay(r), G(geom.MultiPolygon{toPoly(q)}), lay(r), G(geom.MultiPolygon{toPoly(q)}))
+			}
+		}
 	}
 
 	// ---- size thresholds: vertex counts and member counts around powers of two ----
@@ -1041,6 +1070,31 @@ func gen(seed uint64, tier string) {
 		fmt.Fprintf(out, "buf f %s %s %s %d\n", vproto.F2H(c.X), vproto.F2H(c.Y), vproto.F2H(rad), n)
 	}
 
+	// ---- concurrent callers (see concurrentEval): inputs large enough for calls to overlap ----
+	nCC := 14
+	if tier == "thorough" {
+		nCC = 60
+	}
+	for i := 0; i < nCC; i++ {
+		base := basePoly(r, r.Range(2, 4), r.Range(-40, 40), r.Range(-40, 40))
+		q, _ := randSpells(base, true, i%2 == 0)
+		g := G(toPoly(q))
+		fmt.Fprintf(out, "cc area g%s %s\ncc cent g%s %s\n", lay(r), g, lay(r), g)
+		var mems geom.MultiPolygon
+		for k := 0; k < 3; k++ {
+			mq, _ := randSpells(basePoly(r, r.Range(0, 3), 200*k, r.Range(-60, 60)), true, false)
+			mems = append(mems, toPoly(mq))
+		}
+		fmt.Fprintf(out, "cc marea g%s %s\ncc mcent g%s %s\n", lay(r), G(mems), lay(r), G(mems))
+		sq := respell(saw(65+i, r.Range(-9, 9), r.Range(-9, 9)), spell{rev: r.Bool(), rot: r.Intn(60), closed: true})
+		fmt.Fprintf(out, "cc cent g%s %s\n", lay(r), G(geom.Polygon{sq}))
+		l := zig(200 + 10*i)
+		fmt.Fprintf(out, "cc len g%s %s\ncc dist g%s %s %s %s\n", lay(r), G(l), lay(r), vproto.F2H(l[100].X+2), vproto.F2H(l[100].Y-1), G(l))
+		ml := geom.MultiLineString{zig(40), l, zig(7)}
+		fmt.Fprintf(out, "cc dist g%s %s %s %s\n", lay(r), vproto.F2H(l[150].X), vproto.F2H(l[150].Y+3), G(ml))
+		fmt.Fprintf(out, "cc buf f %s %s %s %d\n", vproto.F2H(float64(i)/3), vproto.F2H(-float64(i)/7), vproto.F2H(1+float64(i)/10), 90+i)
+	}
+
 	// ---- bounds (read only here; envelope properties are C04's) ----
 	for i := 0; i < 60; i++ {
 		x0, y0 := r.Range(-50, 50), r.Range(-50, 50)
@@ -1191,8 +1245,10 @@ func layoutMode(tag string) string {
 	return ""
 }
 
-func impl() {
-	vproto.Lines(func(line string, out *bufio.Writer) {
+// evalLine runs the real code on one (non-cc) input line; the geometry is parsed afresh, so every call
+// works on a private deep copy.
+func evalLine(line string) string {
+	{
 		p := vproto.NewParser(line)
 		kind := p.Next()
 		var res string
@@ -1265,6 +1321,114 @@ func impl() {
 		})
 		if pan != "" {
 			res = "harness-panic " + pan
+		}
+		return res
+	}
+}
+
+// ---------- concurrent callers ----------
+//
+// Area, Centroid, Length, Distance, Buffer and op.* are pure functions of their arguments: callers on
+// different goroutines must not influence each other. A `cc <line>` is answered alone first (reference);
+// then ccCallers goroutines repeat the same call ccRounds times on private copies, all started together,
+// while ccHammers goroutines keep calling the same API on unrelated large inputs. The first answer that is
+// not bit-identical to the reference (the result strings carry IEEE bit patterns, panics and
+// "modified:" marks) is reported; otherwise the reference.
+const ccCallers, ccHammers, ccRounds = 8, 8, 25
+
+func hammer(stop *int32, id int) {
+	r := vproto.NewRng(uint64(1000 + id))
+	n := 1500
+	big := make(ring, 0, n)
+	big = append(big, pt(0, 0), pt(2*n, 0))
+	for k := 0; k < n-2; k++ {
+		big = append(big, pt(2*n-1-2*k, 3+(k%2)*r.Range(1, 4)))
+	}
+	holes := geom.Polygon{rect(-5, -5, 4*200+5, 9)}
+	mp := make(geom.MultiPolygon, 200)
+	for j := range mp {
+		sq := rect(4*j, 0, 4*j+2, 2+j%3)
+		mp[j] = geom.Polygon{respell(sq, spell{rev: j%2 == 0, rot: j % 4, closed: true})}
+		holes = append(holes, respell(sq, spell{rev: j%3 == 0, closed: true}))
+	}
+	ls := make(geom.LineString, 3000)
+	for j := range ls {
+		ls[j] = geom.Point{X: float64(j) * 0.7, Y: float64((j*37)%11) / 3}
+	}
+	pg := geom.Polygon{big}
+	for atomic.LoadInt32(stop) == 0 {
+		switch id % 4 {
+		case 0:
+			pg.Area()
+			pg.Centroid()
+			op.Area(pg)
+			op.Centroid(pg)
+			holes.Area()
+		case 1:
+			mp.Area()
+			mp.Centroid()
+			holes.Centroid()
+			geom.MultiPolygon{holes}.Centroid()
+		case 2:
+			ls.Length()
+			ls.Distance(geom.Point{X: 1000.3, Y: -7})
+			op.Length(geom.MultiLineString{ls, ls[:100]})
+			geom.MultiLineString{ls[:50], ls}.Distance(geom.Point{X: -3, Y: 2})
+		default:
+			geom.Point{X: 1, Y: 2}.Buffer(3.5, 3000)
+			pg.Area()
+			ls.Length()
+		}
+	}
+}
+
+func concurrentEval(line string) string {
+	ref := evalLine(line)
+	var stop int32
+	var wg, hw sync.WaitGroup
+	first := make([]string, ccCallers+ccHammers)
+	for h := 0; h < ccHammers; h++ {
+		hw.Add(1)
+		go func(h int) {
+			defer hw.Done()
+			if pan := vproto.Safe(func() { hammer(&stop, h) }); pan != "" {
+				first[ccCallers+h] = "panic concurrent-caller-on-unrelated-input: " + pan
+			}
+		}(h)
+	}
+	start := make(chan struct{})
+	for g := 0; g < ccCallers; g++ {
+		wg.Add(1)
+		go func(g int) {
+			defer wg.Done()
+			<-start
+			for i := 0; i < ccRounds; i++ {
+				if s := evalLine(line); s != ref {
+					first[g] = s
+					return
+				}
+			}
+		}(g)
+	}
+	close(start)
+	wg.Wait()
+	atomic.StoreInt32(&stop, 1)
+	hw.Wait()
+	for _, s := range first {
+		if s != "" {
+			return s
+		}
+	}
+	return ref
+}
+
+func impl() {
+	vproto.Lines(func(line string, out *bufio.Writer) {
+		var res string
+		if strings.HasPrefix(line, "cc ") {
+			res = concurrentEval(line[3:])
+		} else {
+			res = evalLine(line)
 		}
 		fmt.Fprintf(out, "%s => %s\n", line, res)
 	})
